@@ -37,15 +37,16 @@ const (
 	kCapTrend
 	kListTrend
 	kReopen
+	kHandleRace
 	kN
 )
 
 var profiles = map[string][kN]int{
 	"all": {18, 5, 18, 14, 7, 8, 7, 4, 3, 2, 3, 11, 3, 0, 0, 0, 0, 2},
-	"lease": {14, 2, 24, 22, 12, 6, 2, 1, 0, 0, 1, 16, 3, 0, 0, 0, 0, 3},
+	"lease": {14, 2, 24, 22, 12, 6, 2, 1, 0, 0, 1, 16, 3, 0, 0, 0, 0, 3, 2},
 	"time": {14, 2, 26, 18, 6, 3, 1, 1, 0, 0, 3, 26, 1, 0, 0, 0, 0, 3},
 	"admission": {30, 16, 14, 10, 4, 6, 2, 2, 1, 1, 4, 10, 1},
-	"operator": {14, 4, 10, 8, 3, 20, 22, 6, 4, 3, 1, 5, 6, 0, 0, 0, 0, 2},
+	"operator": {14, 4, 10, 8, 3, 20, 22, 6, 4, 3, 1, 5, 6, 0, 0, 0, 0, 2, 2},
 	// the auxiliary logs (delivery attempts, backlog-trend samples) next to ordinary traffic; the four new kinds have weight 0
 	// in every other profile, so the schedules of those profiles are unchanged
 	"aux": {14, 4, 12, 10, 3, 4, 2, 1, 1, 0, 2, 10, 0, 12, 10, 8, 8, 2},
@@ -383,6 +384,19 @@ func GenSchedule(r *rand.Rand, name string, cfg Cfg, o DriverOpts) Schedule {
 			f := filter()
 			f.Limit = pick(r, 0, 0, 2, 1000)
 			ops = append(ops, Op{Op: "FilterRace", MOp: pick(r, "cancel", "requeue", "resume"), F: f, Inner: inner})
+		case kHandleRace:
+			// an operator mutation through a second handle on the database, paused before its commit while a lease
+			// operation of the main handle starts (see Runner.handleRace)
+			ls := make([]LeaseRef, 0, 3)
+			for i, n := 0, 1+r.Intn(3); i < n; i++ {
+				ls = append(ls, LeaseRef{Msg: rid()})
+			}
+			second := Op{Op: "LeaseBatch", Kind: pick(r, "ack", "nack", "dead"), Leases: ls, Reason: "no_retry"}
+			if second.Kind == "nack" {
+				second.Arg = pick(r, 0, 7)
+			}
+			first := Op{Op: "MutateIds", MOp: pick(r, "cancel", "cancel", "requeue", "resume"), IDs: []string{ls[0].Msg, rid()}}
+			ops = append(ops, Op{Op: "HandleRace", Inner: []Op{first, second}})
 		case kReopen:
 			// restart of the process that owns the database (SQLite; skipped on the memory store)
 			ops = append(ops, Op{Op: "Reopen"})
